@@ -659,19 +659,90 @@ def check_projector(case, rec):
         sel = (count > 1) == multi
         if sel.any():
             rec.label("proj:nodes_on_old_edges" if multi else "proj:nodes_inside_old_elements")
-            rec.close(err[sel], fscale, 1e-8, "projector_linear",
+            rec.close(err[sel], fscale, 1e-7, "projector_linear",
                       f"{types}: proj @ u_old differs from the linear field {a.tolist()} on {int(sel.sum())} new nodes "
                       f"{'shared by several old elements' if multi else 'inside one old element'} "
                       f"(row sums {np.round(np.asarray(proj.sum(axis=1)).ravel()[used][sel][:4], 6).tolist()})", multi=multi, **sig)
     rec.nontrivial(bool(np.abs(a[1:]).max() > 0) and new.Nn != old.Nn)
 
 
+# ------------------------------------------------------------------------------------------
+# finite tables: every element type x source x orientation once per run (Hypothesis does not stratify)
+
+_SQ = [[0.9, 0.0], [0.1, 0.8], [-0.8, 0.1], [-0.1, -0.9]]  # general quadrilateral, counter-clockwise
+_OPS = dict(
+    none=[],
+    rot=[dict(op="R", theta=37.0, c=[0.5, -1.0, 0.0], axis=[0.0, 0.0, 1.0]), dict(op="T", v=[1.5, -0.5, 0.0])],
+    mirror=[dict(op="S", c=[0.5, 0.0, 0.0], n=[2.0, 1.0, 0.0]), dict(op="R", theta=115.0, c=[0.0, 0.0, 0.0], axis=[0.0, 0.0, 1.0])],
+    rot3=[dict(op="R", theta=51.7, c=[0.5, -1.0, 0.5], axis=[1.0, 2.0, -1.0]), dict(op="T", v=[1.0, -0.5, 2.0])],
+    mirror3=[dict(op="S", c=[0.5, 0.0, 1.0], n=[1.0, -2.0, 2.0]), dict(op="R", theta=80.0, c=[0.0, 1.0, 0.0], axis=[0.0, 1.0, 1.0])],
+)
+
+
+def _table_recipe(et, organised, verts=None, h=0.55):
+    dim = gm.dim_of(et)
+    shape = cg.shape_of(et)
+    o = gm.ORDER[et]
+    r = dict(verts=[list(v) for v in (verts or _SQ)], h=round(h * (1.0 if o <= 2 else 1.5), 3), elemType=et,
+             organised=bool(organised or shape == "HEXA"), extrude=None, layers=0, A=None, b=None, perm=None, orphans=0)
+    if dim == 3:
+        r.update(extrude=[0.25, -0.25, 0.75], layers=2 if o == 1 else 1, h=round(0.7 * (1.0 if o == 1 else 1.2), 3))
+    return r
+
+
+def enum_normals(tier):
+    for et in gm.T2D:
+        for organised in (False, True):
+            for rev in (False, True):
+                for ops in ("mirror", "rot3", "mirror3"):
+                    r = _table_recipe(et, organised)
+                    if rev:
+                        r["verts"] = r["verts"][::-1]
+                    yield dict(recipe=r, ops=_OPS[ops])
+    for et in gm.T3D:
+        for source in ("gmsh", "recon", "recon_moved"):
+            for ops in ("rot3", "mirror3"):
+                yield dict(recipe=_table_recipe(et, False), ops=_OPS[ops], source=source)
+
+
+def check_normals_table(case, rec):
+    if case["recipe"].get("extrude"):
+        check_normals_3d(case, rec)
+    else:
+        check_normals_2d(case, rec)
+
+
+def enum_location(tier):
+    kinds = ["in", "face", "edge", "node"]
+    for et in gm.T2D + gm.T3D:
+        dim = gm.dim_of(et)
+        shape = cg.shape_of(et)
+        geoms = [("general", _SQ)]
+        if shape in ("QUAD", "HEXA"):
+            geoms.append(("para", _para_verts(_SQ)))
+        for gname, verts in geoms:
+            for organised in ((True,) if shape in ("QUAD", "HEXA") else (False, True)):
+                for ops in (("none", "rot", "mirror", "rot3", "mirror3") if dim == 2 else ("none", "rot3", "mirror3")):
+                    r = _table_recipe(et, organised, verts)
+                    deg = gm.ORDER[et]
+                    coefs = {",".join(map(str, e)): float(1 + (i % 3) - (i % 2) * 3) for i, e in enumerate(orc.monomials(3, deg))}
+                    queries = []
+                    for j, ei in enumerate((0, 5, 11)):
+                        for k, kind in enumerate(kinds):
+                            w = [(3 * j + 5 * k + q * 7 + 2) % 16 for q in range(5)]
+                            queries.append([j, ei, kind] + w)
+                    yield dict(recipe=r, para=(gname == "para"), warp=None, ops=_OPS[ops], deg=deg, coefs=coefs,
+                               queries=queries, allow_cluster=False)
+
+
 SUBS = [
-    Sub("measure_motion", check_measure_motion, gen=measure_cases, quick=180, thorough=1500, shards=6),
-    Sub("normals_2d", check_normals_2d, gen=lambda: normals2d_cases(False), quick=200, thorough=1500, shards=4),
-    Sub("normals_embedded", check_normals_2d, gen=lambda: normals2d_cases(True), quick=100, thorough=800, shards=4),
-    Sub("normals_3d", check_normals_3d, gen=normals3d_cases, quick=120, thorough=600, shards=6),
-    Sub("point_location_2d", check_point_location, gen=lambda: location_cases(2), quick=200, thorough=1000, shards=8),
-    Sub("point_location_3d", check_point_location, gen=lambda: location_cases(3), quick=120, thorough=600, shards=8),
-    Sub("projector", check_projector, gen=projector_cases, quick=150, thorough=600, shards=4),
+    Sub("measure_motion", check_measure_motion, gen=measure_cases, quick=120, thorough=1500, shards=6),
+    Sub("normals_2d", check_normals_2d, gen=lambda: normals2d_cases(False), quick=130, thorough=1500, shards=4),
+    Sub("normals_embedded", check_normals_2d, gen=lambda: normals2d_cases(True), quick=70, thorough=800, shards=4),
+    Sub("normals_3d", check_normals_3d, gen=normals3d_cases, quick=80, thorough=600, shards=6),
+    Sub("point_location_2d", check_point_location, gen=lambda: location_cases(2), quick=140, thorough=1000, shards=8),
+    Sub("point_location_3d", check_point_location, gen=lambda: location_cases(3), quick=80, thorough=600, shards=8),
+    Sub("normals_types", check_normals_table, enum=enum_normals, doc="every element type x contour order / boundary source x rotation / mirror"),
+    Sub("location_types", check_point_location, enum=enum_location, doc="every element type x geometry x motion x query kind"),
+    Sub("projector", check_projector, gen=projector_cases, quick=100, thorough=600, shards=4),
 ]
